@@ -152,10 +152,18 @@ inductive Op
   | registerSession (i : Nat) (name : String)             -- conn_i.register_configuration_session(name)
   | editLevel (i : Nat) (lvl : String) (d : Level)        -- in-place edit of the fields of conn_i.privilege_levels[lvl]
   | editFailedWhen (i : Nat) (l : List String)            -- in-place edit of conn_i.failed_when_contains
+  | delLevel (i : Nat) (lvl : String)                     -- del conn_i.privilege_levels[lvl]  /  .pop(lvl, None)
+  | addLevel (i : Nat) (lvl : String) (d : Level)         -- conn_i.privilege_levels[lvl] = PrivilegeLevel(…)  (a NEW object)
 deriving DecidableEq, Repr
 
 def Op.conn : Op → Nat
-  | .construct i _ | .registerSession i _ | .editLevel i _ _ | .editFailedWhen i _ => i
+  | .construct i _ | .registerSession i _ | .editLevel i _ _ | .editFailedWhen i _ | .delLevel i _ | .addLevel i _ _ => i
+
+/-- `d[k] = <object at a>` on the entries of a dict cell: an existing key keeps its position and is pointed
+    at the new object, a new key is appended -/
+def repoint (k : String) (a : Nat) : List (String × Nat) → List (String × Nat)
+  | [] => [(k, a)]
+  | e :: r => if k == e.1 then (e.1, a) :: r else e :: repoint k a r
 
 def findClass (classes : List ClassInfo) (cls : String) : Option ClassInfo := classes.find? (·.cls == cls)
 
@@ -193,6 +201,17 @@ def step (classes : List ClassInfo) (s : St) : Op → St
     match s.conns.lookup i with
     | none => s
     | some c => { s with heap := s.heap.set c.t.fwc (Obj.strs l) }
+  | .delLevel i lvl =>
+    match s.conns.lookup i with
+    | none => s
+    | some c =>
+      { s with heap := s.heap.set c.t.privs (Obj.dict ((cellDict s.heap c.t.privs).filter (fun e => !(lvl == e.1)))) }
+  | .addLevel i lvl d =>
+    match s.conns.lookup i with
+    | none => s
+    | some c =>
+      let a := s.heap.length
+      { s with heap := (s.heap ++ [Obj.lvl d]).set c.t.privs (Obj.dict (repoint lvl a (cellDict s.heap c.t.privs))) }
 
 def run (classes : List ClassInfo) (s : St) (ops : List Op) : St := ops.foldl (step classes) s
 
@@ -213,6 +232,11 @@ def setLevel (lvl : String) (d : Level) : List (String × Level) → List (Strin
   | [] => []
   | e :: r => if lvl == e.1 then (e.1, d) :: r else e :: setLevel lvl d r
 
+/-- `d[k] = v` on values -/
+def putLevel (k : String) (d : Level) : List (String × Level) → List (String × Level)
+  | [] => [(k, d)]
+  | e :: r => if k == e.1 then (e.1, d) :: r else e :: putLevel k d r
+
 def stepV (classes : List ClassInfo) (s : StV) : Op → StV
   | .construct i cls =>
     match findClass classes cls with
@@ -232,6 +256,10 @@ def stepV (classes : List ClassInfo) (s : StV) : Op → StV
     { s with conns := updFirst i (fun c => { c with v := { c.v with privs := setLevel lvl d c.v.privs } }) s.conns }
   | .editFailedWhen i l =>
     { s with conns := updFirst i (fun c => { c with v := { c.v with fwc := l } }) s.conns }
+  | .delLevel i lvl =>
+    { s with conns := updFirst i (fun c => { c with v := { c.v with privs := c.v.privs.filter (fun e => !(lvl == e.1)) } }) s.conns }
+  | .addLevel i lvl d =>
+    { s with conns := updFirst i (fun c => { c with v := { c.v with privs := putLevel lvl d c.v.privs } }) s.conns }
 
 def runV (classes : List ClassInfo) (s : StV) (ops : List Op) : StV := ops.foldl (stepV classes) s
 
@@ -252,12 +280,65 @@ def coreClasses : List ClassInfo :=
   Scrapli.Gen.Factory.ctors.map (fun c => ⟨c.cls, c.platform, c.privsCopy, c.fwcCopy, c.session⟩)
 
 /-- class-table entry for a community platform built through the factory: `NetworkDriver` keeps the
-    objects it is handed, which are the factory's copy of `SCRAPLI_PLATFORM` -/
+    objects it is handed (generated stores table, decided in `network_stores_by_reference`), which are the
+    factory's copy of `SCRAPLI_PLATFORM` -/
 def communityClass (name : String) : ClassInfo :=
   ⟨name, name, Scrapli.Gen.Factory.communityCopy, Scrapli.Gen.Factory.communityCopy, none⟩
 
 /-- the five core platform definitions, from the generated tables -/
 def coreDefs : List (String × TablesV) :=
   Scrapli.Gen.Factory.corePrivs.map (fun e => (e.1, ⟨e.2, (Scrapli.Gen.Factory.coreFwc.lookup e.1).getD []⟩))
+
+/-! ## `_current_priv_level` (network/base_driver.py:75, 94, 362, 416)
+
+  `BaseNetworkDriver._current_priv_level = DUMMY_PRIV_LEVEL` is a CLASS attribute bound to one module-level
+  `PrivilegeLevel` object; `_process_acquire_priv` (362) and the `_generic_driver_mode` setter (416) re-bind the
+  instance attribute to that same object.  So until a privilege level has been acquired every connection's
+  `_current_priv_level` IS the module's dummy object.  The table model above does not contain this attribute;
+  this extension adds it (aliasing, as the code does) so that the full isolation statement can be refuted
+  (`isolation_full_refuted`).  scrapli's own code only reads `.name` / `.pattern` of it; an in-place edit is
+  possible through the private attribute only. -/
+
+/-- `DUMMY_PRIV_LEVEL = PrivilegeLevel("", "DUMMY", "", "", "", False, "")` -/
+def dummyLevel : Level := ⟨"", "DUMMY", "", "", "", false, "", []⟩
+
+structure StX where
+  base : St
+  dummy : Nat                  -- address of the module-level DUMMY_PRIV_LEVEL
+  cur : List (Nat × Nat)       -- connection ↦ address its `_current_priv_level` refers to
+
+inductive OpX
+  | tbl (op : Op)                          -- one of the table operations
+  | editCurrent (i : Nat) (d : Level)      -- in-place edit of the fields of conn_i._current_priv_level
+deriving DecidableEq, Repr
+
+def OpX.conn : OpX → Nat
+  | .tbl op => op.conn
+  | .editCurrent i _ => i
+
+def stepX (classes : List ClassInfo) (s : StX) : OpX → StX
+  | .tbl op =>
+    let b := step classes s.base op
+    match op with
+    | .construct i _ =>
+      -- a constructed connection starts with the class attribute: the shared dummy
+      if b.conns.length = s.base.conns.length then { s with base := b } else { s with base := b, cur := (i, s.dummy) :: s.cur }
+    | _ => { s with base := b }
+  | .editCurrent i d =>
+    match s.cur.lookup i with
+    | none => s
+    | some a => { s with base := { s.base with heap := s.base.heap.set a (Obj.lvl d) } }
+
+def runX (classes : List ClassInfo) (s : StX) (ops : List OpX) : StX := ops.foldl (stepX classes) s
+
+def mkInitX (defs : List (String × TablesV)) : StX :=
+  let s := mkInit defs
+  { base := { s with heap := s.heap ++ [Obj.lvl dummyLevel] }, dummy := s.heap.length, cur := [] }
+
+/-- what connection `j` sees in its `_current_priv_level` -/
+def viewCur (s : StX) (j : Nat) : Option Level := (s.cur.lookup j).map (cellLvl s.base.heap)
+
+/-- the module-level dummy object -/
+def viewDummy (s : StX) : Level := cellLvl s.base.heap s.dummy
 
 end Scrapli.Factory.Heap
